@@ -233,18 +233,18 @@ func r163(c *Ctx) {
 		c.ob(rule, "write Service.certManager <- "+fname(w.fn), w.instr.Pos(), ok, false, "only initialize() installs the manager created for the service's own options")
 	}
 	tlsEn := c.field("ServiceOptions", "TLSEnabled")
-	okOff := false
+	// every return that can hand out a manager is on a path where options.TLSEnabled is known to be set
+	okOff, nMgr := true, 0
 	for _, ret := range normalReturns(ccm) {
-		_, off := boolFacts(ret, matchFieldLoad(tlsEn))
-		if off {
-			okOff = isNilConst(retVal(ret, 0)) && isNilConst(lastRet(ret))
-		} else {
-			on, _ := boolFacts(ret, matchFieldLoad(tlsEn))
-			if !on && !isNilConst(retVal(ret, 0)) {
-				okOff = false
-			}
+		if isNilConst(retVal(ret, 0)) {
+			continue
+		}
+		nMgr++
+		if on, _ := boolFacts(ret, matchFieldLoad(tlsEn)); !on {
+			okOff = false
 		}
 	}
+	okOff = okOff && nMgr >= 1
 	c.ob(rule, "createCertManager/no-manager-without-TLS", ccm.Pos(), okOff, true, "a service without TLS must have no certificate manager (so handshakes for its names fail)")
 	// createCertManager is applied to the service's own options
 	okOwn := false
